@@ -392,6 +392,7 @@ def c14_rust(ctx):
     c14_lex_state_merge(ctx, F)
     c14_lex_minimize(ctx, F)
     c14_implicit_precedence(ctx, F)
+    c14_advance_map_prefix(ctx, F)
     c14_prefer(ctx, F)
     c14_group_transitions(ctx, F)
     fn = find_fn(ctx, F, "build_tables::identify_keywords", "G3")
@@ -524,6 +525,60 @@ def c14_implicit_precedence(ctx, F):
     else:
         ctx.bad("I1", "get_implicit_precedence:looks-through-every-wrapper", "get_implicit_precedence %s (%s): a literal written token(prec(N, 'lit')) loses its preference over a pattern that matches the same text"
                 % (v.msg, fn.loc(v.pt)), {"path": sr.render_path(v.path)[-5:]})
+
+
+def c14_advance_map_prefix(ctx, F):
+    """C14.R1: the ADVANCE_MAP of a lex state covers a *prefix* of its transitions.  The generated lexer consults the
+    map before the remaining `if` tests, and the transitions are in priority order; so the count of transitions put in the
+    map stops at the first transition that is not "simple" (a skipped separator, a wide range, a code point beyond 16
+    bits).  Counting all simple transitions and using the count as a prefix length puts non-simple ones in the map:
+    separators are then consumed into the next token and astral characters are truncated."""
+    fn = find_fn(ctx, F, "Generator::add_lex_state", "R1")
+    if not fn:
+        return
+    key = "add_lex_state:map-covers-a-prefix"
+    ids = [i for i, nm in fn._names.items() if nm == "leading_simple_transition_count"] if fn.defs(0) is not None or True else []
+    fn.defs(0)
+    ids = [i for i, nm in fn._names.items() if nm == "leading_simple_transition_count"]
+    if not ids:
+        # renamed: the local that bounds the slice handed to the map loop
+        ctx.bad("R1", key, "the local counting the leading simple transitions was not found in add_lex_state")
+        return
+    defs = [(pt, x) for pt, e in fn.points() for x in own_walk(e) if x.get("k") == "assign" and strip(x["l"]).get("k") == "ref" and strip(x["l"]).get("id") in ids]
+    texts = [deep_text(fn, x["r"], user=False) for pt, x in defs]
+    adaptor = [t for t in texts if "count(" in t or "Iterator::count" in t]
+    if adaptor:
+        whole = " ".join(adaptor) + " " + " ".join((c.get("targs") or "") + (c.get("fn") or "") for pt, c in fn.calls())
+        if "TakeWhile" in whole or "take_while" in whole:
+            ctx.ok("R1", key, "the count is that of a take_while(..) prefix")
+        else:
+            ctx.bad("R1", key, "add_lex_state counts the simple transitions with `%s` (no take_while): the count covers transitions behind the first non-simple one but is used as a prefix length, "
+                    "so separators and astral characters end up in the ADVANCE_MAP" % adaptor[0][:70])
+        return
+    incs = [pt for (pt, x), t in zip(defs, texts) if "+ 1" in t or "+ 1)" in t]
+    if not incs:
+        ctx.bad("R1", key, "no increment of the simple-transition count found in add_lex_state")
+        return
+
+    class Prefix(Monitor):
+        def elem(self, m, pt, e, s):
+            if pt in incs and m:
+                return Viol("counts a simple transition after a non-simple one was seen", pt)
+            return m
+
+        def edge(self, m, bid, edge, cond, truth, s):
+            if cond is not None and truth is not None:
+                txt, t = cond_text(fn, cond, truth)
+                if ("in_main_token" in txt or "Iterator::all(" in txt) and not t:
+                    return True
+            return m
+    # only the counting loop: start at the loop that contains the increments and stop where the count is first used
+    sr = Search(fn, Prefix(), budget=3000000)
+    v = sr.run(False)
+    if v is None:
+        ctx.ok("R1", key, "after the first transition that is not simple no further transition is counted (%d states)" % sr.states)
+    else:
+        ctx.bad("R1", key, "add_lex_state %s (%s)" % (v.msg, fn.loc(v.pt)), {"path": sr.render_path(v.path)[-6:]})
 
 
 def c14_lex_minimize(ctx, F):
@@ -741,6 +796,22 @@ def c01_rust(ctx):
         else:
             ctx.bad("G4", "build_tables:calls-mark_fragile_tokens", "build_tables no longer calls mark_fragile_tokens: every token would stay reusable")
 
+    # the direction of the overlap test: "does another valid token take text away from the entry's token?"
+    if fn:
+        holder = [fn] + [f for f in F.fn_list if f.name.startswith(fn.name + "::{closure")]
+        ov = [(g, pt, c) for g in holder for pt, c, d in calls_named(g, "does_overlap")]
+        key = "mark_fragile_tokens:overlap-direction"
+        if len(ov) != 1:
+            ctx.bad("G4", key, "expected one does_overlap call in mark_fragile_tokens (found %d)" % len(ov))
+        else:
+            g, pt, c = ov[0]
+            a1, a2 = deep_text(g, c["a"][1], user=True), deep_text(g, c["a"][2], user=True)
+            entry = lambda t: ".index" in t
+            if not entry(a1) and entry(a2):
+                ctx.ok("G4", key, "does_overlap(<other valid token>, <this entry's token>.index): the entry is marked when another token valid in the state can take its text")
+            else:
+                ctx.bad("G4", key, "mark_fragile_tokens asks does_overlap(%s, %s): the directional test is made the wrong way round, so the token that *loses* text to a longer one (`>` against `>>`) "
+                        "stays reusable and an old `>` is carried into a state where a fresh lex yields `>>`" % (a1[-40:], a2[-40:]), {"site": g.loc(pt)})
 
 def c13_rust(ctx):
     ctx.config = "rust"
